@@ -48,8 +48,14 @@ func c03Tree(n *ttlvref.Node) (sig string, err error) {
 	want := ttlvref.Write(n)
 	// (1) library encoder -> independent strict parser
 	var got []byte
-	if err := safely(func() error { got = ttlv.MarshalTTLV(gen.ToValue(n)); return nil }); err != nil {
+	// the byte strings handed to the encoder are neighbouring sub-slices of one buffer: encoding must not write to it
+	shared, arena := gen.ToValueShared(n)
+	arenaBefore := append([]byte{}, arena...)
+	if err := safely(func() error { got = ttlv.MarshalTTLV(shared); return nil }); err != nil {
 		return "encode-panic", err
+	}
+	if !bytes.Equal(arena, arenaBefore) {
+		return "encoder-writes-to-callers-memory", fmt.Errorf("encoding modified the buffer holding the caller's byte strings (beyond the length of a slice): before %x after %x", arenaBefore, arena)
 	}
 	parsed, perr := ttlvref.Parse(got, ttlvref.Strict)
 	if perr != nil {
